@@ -49,8 +49,8 @@ def main():
                "patch applied (`VERIF_REPO=<worktree> VERIF_NO_REPLAY=1 python3 run.py <ID> quick`), i.e. by generated search only: the "
                "replay files of earlier findings were not consulted. \"first run\" in the history column means the state of the machinery "
                "before it had seen the change. The column of ALL alarming quick checks comes from tools/crossmut.py (every quick check against every change; rounds 1-4 "
-               "with the checks as they stood before round 5, rounds 5-8 with the checks as they stood after round 8); n/a marks the two changes that no longer apply and the changes of "
-               "round 9, for which the matrix was not recomputed (the neighbours that were tried are named in the history).\n")
+               "with the checks as they stood before round 5, rounds 5-8 with the checks as they stood after round 8, round 9 with the final checks); n/a marks the two changes that no "
+               "longer apply.\n")
     out.append("Changes written by fresh sub-agents that were given only the property text and a scratch worktree (rounds 1-%d):\n" % max(per_round or {0: 0}))
     for rnd in sorted(per_round):
         pr = per_round[rnd]
